@@ -278,6 +278,9 @@ def run(tier, rep):
         sg = '-' if v < 0 else ''
         texts += [(sg + str(a), 10), (sg + str(a), 0), (sg + hex(a), 16), (sg + hex(a), 0), (sg + hex(a)[2:], 16), (sg + oct(a), 8), (sg + oct(a), 0), (sg + oct(a)[2:], 8),
                   (sg + bin(a), 2), (sg + bin(a), 0), (sg + bin(a)[2:], 2), ('  ' + sg + str(a) + ' ', 10), ('+' + str(a), 10), (sg + hex(a).upper().replace('0X', '0x'), 16)]
+    # zeros after a base prefix are digits like any other; only a decimal literal in base 0 may not start with one
+    texts += [('0x01', 0), ('0b01', 0), ('0o017', 0), ('0x00', 0), ('-0X00ff', 0), ('0x01', 16), ('0b0001', 2), ('0o00', 8), ('0B0', 0), ('0O0007', 0), ('+0x000', 0), ('0x0000000000000000000001', 0), ('0b' + '0' * 70 + '1', 0),
+              ('01', 0), ('-007', 0), ('00x1', 0), ('0x0x1', 0)]
     texts += [('', 10), ('-', 10), ('0x', 16), ('0x', 0), ('12a', 10), ('0b2', 0), ('0o8', 0), ('1 2', 10), ('0777', 0), ('00', 0), ('0', 0), ('-0', 10), ('9' * 40, 10), ('z', 36), ('Z' * 14, 36),
               ('1', 1), ('1', 37), ('1', -1), ('--5', 10), ('+-5', 10), ('-+5', 10), ('0x-5', 16), ('0x+5', 0), ('- 5', 10), ('-0x10', 0), ('0x 10', 16), ('000', 0), ('--' + '7' * 30, 10), ('+-' + 'f' * 30, 16), ('0b-1', 2), ('0o+7', 8), ('0x' + '-' + 'f' * 20, 16), ('1e3', 10), ('1.0', 10), ('0x', 10), ('0b', 16), ('0b1', 16), ('0B', 36), ('0o', 36), ('0x1', 36), ('1' * 13, 2), ('9' * 19, 10), ('9' * 18, 10), ('z' * 12, 36), ('z' * 13, 36), ('10', 2), ('1\n', 10), ('\t-7\n', 10)]
     for t, base in texts:
